@@ -25,6 +25,11 @@ CHECKS = {
          "The 32-bit pair is decided completely: all 2^32 arguments, both compositions. For the 64-bit pair complete enumeration is impossible; complete structured sub-domains are swept (consecutive blocks of 2^26/2^34 values low/high/complemented/shifted, a<<s for all shifts, <=3 bits set or cleared, carry-chain patterns, forward/backward orbits): 2.8e8 values quick, 7e10 thorough.",
          "64-bit half is not exhaustive (stated in the evidence); a solver would be needed to close it, which is outside this family",
          "DESIGN.md §4 C19"),
+ "C20": ("fault_enumeration",
+         "crash-point enumeration: every byte prefix of every dumped file; exhaustive alphabet round trips",
+         "For 100 (quick) / 2052 (thorough) parameter tuples the real dump is written and EVERY strict byte prefix of the file (the possible states after a crash during the dump) is reloaded with the real reload_json: the outcome must be Err - a panic or an Ok is a violation; missing file, missing directory, a directory in place of the file and a dump over an existing longer dump are separate cases. Round trip is checked on the cross product of an 18-float x 9-integer boundary alphabet plus 2e4 / 1e6 seeded bit-pattern tuples: m,q exact, a,b exact when <=15 significant digits else within 1 ulp.",
+         "a crash leaves a prefix of the single buffered write; parameter space beyond the alphabet is sampled by bit patterns, not exhausted",
+         "DESIGN.md §4 C20"),
 }
 PENDING_REASON = "check not built yet in this revision (see DESIGN.md §4 for the planned model-checking approach)"
 
